@@ -166,7 +166,7 @@ class Session:
         from annet import api, cli_args
         args = cli_args.ShowPatchOptions(query=_harness_query(), config=self.dir, acl_safe=bool(acl_safe), indent="  ", no_acl_exclusive=True,
                                          clear=bool(clear))
-        return list(api._patch_worker(self.dev.id, args, self._stdin(args, self.dir), self.loader, None))
+        return list(env.call_private(api, "_patch_worker", self.dev.id, args, self._stdin(args, self.dir), self.loader, None))
 
     def patch_diff(self, acl_safe=False):
         """the (diff, patch tree) pairs annet.api.res_diff_patch yields for `annet patch` (and deploy's --show-diff)"""
@@ -284,4 +284,4 @@ class Fabric:
             kw = {"filter_acl": self.dir} if self.with_filter else {}
             self._args = cli_args.ShowPatchOptions(query=_harness_query(), config=self.dir, indent="  ", no_acl_exclusive=True, **kw)
             self._stdin = self._args.stdin(filter_acl=self._args.filter_acl, config=self._args.config)
-        return list(api._patch_worker(dev_id, self._args, self._stdin, self.loader, None))
+        return list(env.call_private(api, "_patch_worker", dev_id, self._args, self._stdin, self.loader, None))
